@@ -78,7 +78,10 @@ class Arr:
 
     def zip(self, o, f):
         if self.shape != o.shape:
-            raise Unsupported("shape mismatch %s vs %s" % (self.shape, o.shape))
+            a, b = self.shape[::-1], o.shape[::-1]
+            if all(x == y or x == 1 or y == 1 for x, y in zip(a, b)):
+                raise Unsupported("broadcasting of shapes %s and %s is not modelled" % (self.shape, o.shape))
+            raise PathRaise("ValueError(operands could not be broadcast together with shapes %s %s)" % (self.shape, o.shape), "array arithmetic")
         if self._ndim == 2:
             return Arr([[f(a, b) for a, b in zip(r1, r2)] for r1, r2 in zip(self.data, o.data)], 2)
         return Arr([f(a, b) for a, b in zip(self.data, o.data)], 1)
@@ -148,6 +151,11 @@ class Quot:
 
     def __init__(self, num, den):
         self.num, self.den = num, den
+
+
+class DDict(dict):
+    """collections.defaultdict"""
+    default_factory = None
 
 
 class IndexSet:
@@ -460,7 +468,8 @@ class Interp:
             new = self.call_method(cur, "__iadd__", [val])
             self.assign(t, new, env)
             return
-        if isinstance(cur, Arr) and not isinstance(t, ast.Subscript):
+        elem_of_container = isinstance(t, ast.Subscript) and isinstance(self.ev(t.value, env), (dict, list))
+        if isinstance(cur, Arr) and (not isinstance(t, ast.Subscript) or elem_of_container):
             # ndarray in-place arithmetic mutates the same object
             new = self.arith(op, cur, val, st)
             if not isinstance(new, Arr) or new.shape != cur.shape:
@@ -1075,9 +1084,63 @@ class Interp:
             return self.builtin(f.payload[0], args, kw, n, env)
         if k == "npfunc":
             return self.npfunc(f.payload[0], args, kw, n)
-        if k == "super":
-            raise self.unsupported("bare super object call", n)
+        if k == "import":
+            return self.imported_call(f.payload[0], args, kw, n)
+        if k == "callable":
+            return f.payload[0](*args)
         raise self.unsupported("call of %r" % (f,), n)
+
+    def imported_call(self, origin, args, kw, n):
+        leaf = origin.rsplit(".", 1)[-1]
+        if leaf == "defaultdict":
+            d = DDict()
+            fac = args[0] if args else None
+            if fac is not None:
+                d.default_factory = (lambda fac=fac: self.call_value(fac, [], n))
+            return d
+        if leaf == "reduce":
+            fn, seq = args[0], self.iterate(args[1], n)
+            if len(args) > 2:
+                acc = args[2]
+            else:
+                acc, seq = seq[0], seq[1:]
+            for x in seq:
+                acc = self.call_value(fn, [acc, x], n)
+            return acc
+        if leaf in ("lil_matrix", "csr_matrix", "csc_matrix", "dok_matrix", "coo_matrix"):
+            self.check_dtype(kw, n)
+            shp = args[0]
+            if isinstance(shp, tuple) and len(shp) == 2:
+                r, c = self.intval(shp[0], n), self.intval(shp[1], n)
+                a = Arr([[Poly() for _ in range(c)] for _ in range(r)], 2)
+                a.sparse = True
+                return a
+            if isinstance(shp, Arr):
+                return shp.copy()
+            raise self.unsupported("sparse matrix constructor argument", n)
+        if leaf == "deepcopy" or leaf == "copy":
+            v = args[0]
+            if isinstance(v, Pose):
+                return Pose(v.cls, list(v.data))
+            if isinstance(v, Arr):
+                return v.copy()
+        raise self.unsupported("call of imported %s" % origin, n)
+
+    def call_value(self, f, args, n):
+        if isinstance(f, ClassRef):
+            return self.construct(f.name, args)
+        if isinstance(f, Opaque):
+            if f.kind == "bound":
+                return self.call_method(f.payload[0], f.payload[1], args)
+            if f.kind == "clsmeth":
+                return self.call_classmethod(f.payload[0], f.payload[1], args)
+            if f.kind == "pkgfunc":
+                return self.call_function(self.pkg.funcs[f.payload[0]], args)
+            if f.kind == "callable":
+                return f.payload[0](*args)
+        if callable(f):
+            return f(*args)
+        raise self.unsupported("call of value %r" % (f,), n)
 
     def arr_method(self, v, name, args, kw, n):
         if name == "view":
@@ -1123,6 +1186,13 @@ class Interp:
             return sum(v.flat(), Poly())
         if name == "round":
             raise LossyOperation("ndarray.round", self.where(n))
+        if name in ("tocsr", "tocsc", "tolil", "todense", "toarray", "tocoo"):
+            return v
+        if name == "any":
+            nz = [x for x in v.flat() if not x.is_zero()]
+            if not nz:
+                return False
+            raise self.unsupported("ndarray.any() on symbolic entries", n)
         raise self.unsupported("ndarray method %s" % name, n)
 
     def py_method(self, v, name, args, kw, n):
@@ -1588,7 +1658,7 @@ def _dotp(r, c):
 
 
 OPNAME = {ast.Lt: "<", ast.LtE: "<=", ast.Gt: ">", ast.GtE: ">=", ast.Eq: "==", ast.NotEq: "!="}
-ARR_METHODS = {"view", "copy", "dot", "transpose", "flatten", "ravel", "tolist", "astype", "reshape", "sum", "round"}
+ARR_METHODS = {"tocsr", "tocsc", "tolil", "todense", "toarray", "tocoo", "any", "view", "copy", "dot", "transpose", "flatten", "ravel", "tolist", "astype", "reshape", "sum", "round"}
 BUILTIN_NAMES = {"set", "frozenset", "dict", "isinstance", "issubclass", "type", "len", "range", "zip", "enumerate", "reversed", "list", "tuple",
                  "all", "any", "sum", "max", "min", "super", "print", "round", "int", "abs", "NotImplementedError"}
 
